@@ -113,6 +113,46 @@ fn check_step(o: &mut Outcome, d: usize, before: &[f64], calls: &[(u64, usize, V
     }
 }
 
+/// recording conditional over an element type that owns heap memory (not Copy): `MarkovChain::step` is
+/// implemented for every element type, and all fields of the chain are public
+#[derive(Clone)]
+struct BoxCond {
+    log: Arc<Mutex<Vec<(u64, usize, Vec<f64>, f64)>>>,
+    calls: u64,
+}
+impl Conditional<Box<i64>> for BoxCond {
+    fn sample(&mut self, index: usize, given: &[Box<i64>]) -> Box<i64> {
+        self.calls += 1;
+        let v = 100_000 + self.calls as i64;
+        self.log.lock().unwrap().push((1, index, given.iter().map(|b| **b as f64).collect(), v as f64));
+        Box::new(v)
+    }
+}
+fn boxed_history(p: &Value) -> Outcome {
+    use rand::SeedableRng;
+    let mut o = Outcome::default();
+    let d = pus(p, "d").min(40);
+    let log = Arc::new(Mutex::new(vec![]));
+    let mut chain = GibbsMarkovChain { target: BoxCond { log: log.clone(), calls: 0 }, current_state: (0..d).map(|j| Box::new(9000 + j as i64)).collect::<Vec<Box<i64>>>(), seed: pu(p, "chain_seed"), rng: rand::rngs::SmallRng::seed_from_u64(1) };
+    let mut before: Vec<f64> = chain.current_state.iter().map(|b| **b as f64).collect();
+    for _ in 0..pus(p, "steps") {
+        log.lock().unwrap().clear();
+        let _ = chain.step();
+        let after: Vec<f64> = chain.current_state.iter().map(|b| **b as f64).collect();
+        let calls = log.lock().unwrap().clone();
+        check_step(&mut o, d, &before, &calls, &after, "GibbsMarkovChain::step[Box<i64>]");
+        before = after;
+        o.work += 1;
+        if !o.violations.is_empty() {
+            break;
+        }
+    }
+    o.hash = str_hash(&p.to_string());
+    o.nontrivial = d >= 2;
+    o.count("probe_non_copy_element_type", 1);
+    o
+}
+
 struct CallHistory;
 fn call_history<S: GElt + ndarray::LinalgScalar>(p: &Value, ws: bool) -> Outcome {
     let mut o = Outcome::default();
@@ -264,13 +304,14 @@ impl Scenario for CallHistory {
     }
     fn generate(&self, g: &mut Gen, _t: Tier, _i: u64) -> Value {
         let cs = crate::props::c07::special_seed(g, 4);
-        json!({"elt": *g.pick(&["f64", "f64", "f32", "i32", "usize"]), "d": crate::core::size(g, 1, 64, 300), "steps": g.usize(1, 20), "chain_seed": cs.to_string(), "nan_answers": g.bool(1, 3)})
+        json!({"elt": *g.pick(&["f64", "f64", "f32", "i32", "usize", "boxed"]), "d": crate::core::size(g, 1, 64, 300), "steps": g.usize(1, 20), "chain_seed": cs.to_string(), "nan_answers": g.bool(1, 3)})
     }
     fn execute(&self, p: &Value, ws: bool) -> Outcome {
         match ps(p, "elt") {
             "f32" => call_history::<f32>(p, ws),
             "i32" => call_history::<i32>(p, ws),
             "usize" => call_history::<usize>(p, ws),
+            "boxed" => boxed_history(p),
             _ => call_history::<f64>(p, ws),
         }
     }
@@ -579,6 +620,12 @@ impl Scenario for PanicFault {
             // preceding steps were ordinary sweeps (checked above) and the failure still did not fire, this
             // step asked the conditional fewer than fc times; otherwise the fault plan itself is off.
             let n_calls = log.lock().unwrap().len();
+            let requests = chain.target.calls.saturating_sub((sb * d) as u64);
+            if o.violations.is_empty() && chain.target.calls >= (sb * d + fc) as u64 {
+                // the failing request was made (the stub counts it) and step() came back all the same: the
+                // failure was swallowed inside the step
+                o.violate("failure_swallowed", "GibbsMarkovChain::step:conditional-failure-swallowed", format!("the conditional failed at request {fc} of a step of a {d}-dimensional chain and step() returned normally after {requests} requests: the caller never learns of the failure, and the coordinate was asked again"));
+            }
             if o.violations.is_empty() && n_calls < fc {
                 o.violate("call_count", "GibbsMarkovChain::step:calls-per-step", format!("{n_calls} conditional calls in a step of a {d}-dimensional chain (the injected failure at call {fc} was never reached)"));
             } else if o.violations.is_empty() {
